@@ -30,6 +30,7 @@ from claripy.errors import BackendError
 
 _c = {}
 VARS = ["x", "y", "z"]
+SIMPLIFY_HOOK = [lambda op, args: (None, False)]      # contract of simplifications.simplify, set per path
 
 
 def _annos():
@@ -51,7 +52,7 @@ def load_base():
 
     class NS:
         backends = type("B", (), {"concrete": Concrete})
-        simplifications = type("S", (), {"simplify": staticmethod(lambda op, args: (None, False))})
+        simplifications = type("S", (), {"simplify": staticmethod(lambda op, args: SIMPLIFY_HOOK[0](op, args))})
         errors = real.errors
         annotation = real.annotation
     ns = loader.load("claripy/ast/base.py", "claripy.ast.base", overrides={"claripy": NS})
@@ -262,7 +263,7 @@ def ob_make_like(tier="quick"):
         ns = _c.get("ns") or _c.setdefault("ns", load_base())
         Base = ns["Base"]
         Base._hash_cache = weakref.WeakValueDictionary()
-        shape = c.choose([True, True, True, True], "args")
+        shape = c.choose([True, True, True, True, True], "args")
         same = shape == 0
         nk = 1 + c.choose([True, True], "n-ast-args") if same else 1
         kids = [_stub(ns, c, f"k{i}", i) for i in range(nk)]
@@ -294,6 +295,17 @@ def ob_make_like(tier="quick"):
                 # "like" an operand that may be a symbol leaf - whose own variables / symbolic flag must not be inherited
                 leaf = _stub(ns, c, "tmpl", 50, light=True)
                 r = leaf.make_like("__and__", args2, length=me.length)
+            elif shape == 4:
+                # the same call with simplify=True (extract_simplifier's distribution over a flattenable operation) when the rewriter returns
+                # one of the OPERANDS, a symbol leaf (0xff & x -> x): the node that is built stands for that leaf
+                tmpl = _stub(ns, c, "tmpl", 50, light=True)
+                tmpl.variables, tmpl.symbolic = frozenset(), False                     # the template is a constant
+                leaf = args2[0]
+                SIMPLIFY_HOOK[0] = lambda op, args: (leaf, False)
+                try:
+                    r = tmpl.make_like("__and__", args2, simplify=True, length=me.length)
+                finally:
+                    SIMPLIFY_HOOK[0] = lambda op, args: (None, False)
             else:
                 r = me.make_like("__and__", args2, length=me.length)
         except (PathEnd, Undecided):
@@ -307,10 +319,37 @@ def ob_make_like(tier="quick"):
         elif shape == 1:
             # annotations default to self's; children's relocatable annotations are merged again
             _post(c, "Base.make_like[new-args]", r, "__add__", args2, kids2, me.annotations, False, None, None, None, length)
+        elif shape == 4:
+            c.n_vcs += 1
+            if r.op != leaf.op or tuple(r.args) != tuple(leaf.args):
+                c.fail("Base.make_like[rewritten-to-a-leaf]/structure", f"built {r.op}{r.args!r} instead of the leaf {leaf.op}{leaf.args!r}")
+            if frozenset(r.variables) != frozenset(leaf.variables):
+                c.fail("Base.make_like[rewritten-to-a-leaf]/variables", f"the node built for the symbol leaf {leaf.args[0]!r} reports variables {sorted(r.variables)} "
+                       f"(the template's) instead of {sorted(leaf.variables)}", kind="C05")
+            if bool(r.symbolic) != bool(leaf.symbolic):
+                c.fail("Base.make_like[rewritten-to-a-leaf]/symbolic", f"symbolic={r.symbolic} instead of {leaf.symbolic}", kind="C05")
         elif shape == 2:
             _post(c, "Base.make_like[other-op-like-a-leaf]", r, "__and__", args2, kids2, leaf.annotations, False, None, None, None, length)
         else:
             _post(c, "Base.make_like[other-op]", r, "__and__", args2, kids2, me.annotations, False, None, None, None, length)
-        return ["same", "new", "leaf-template", "other-op"][shape]
+        return ["same", "new", "leaf-template", "other-op", "rewritten-to-a-leaf"][shape]
 
-    return explore(body, {"budget_s": 900, "max_depth": 4000, "max_paths": 3000000, "anno_universe": None})
+    return explore(body, {"budget_s": 900, "max_depth": 4000, "max_paths": 3000000, "anno_universe": None, "replay": replay_make_like})
+
+
+def replay_make_like(failure=None):
+    """native (found by a sub-agent while writing a seeded change): an extraction that distributes over a mask whose rewrite returns an
+    annotated symbol, while the plain symbol is not alive in the hash-cons table"""
+    if "rewritten-to-a-leaf" not in str((failure or {}).get("label")):
+        return {"reproduced": True, "text": "metadata clause on the built node (executed on the real class)"}
+    import gc
+    import claripy
+
+    class _A(claripy.Annotation):
+        pass
+    y = claripy.BVS("kf_ml_y", 8, explicit_name=True)
+    xa = claripy.BVS("kf_ml_x", 8, explicit_name=True).annotate(_A())
+    gc.collect()
+    e = (claripy.BVV(0xFF, 16) & claripy.Concat(y, xa))[7:0]
+    bad = e.op == "BVS" and (not e.variables or not e.symbolic)
+    return {"reproduced": bool(bad), "text": f"(BVV(0xff, 16) & Concat(y, x.annotate(A())))[7:0] = {e!r}: op {e.op}, variables {set(e.variables)}, symbolic {e.symbolic}"}
